@@ -121,6 +121,10 @@ func (s *session) execDF(op string, a []string) string {
 		return fmtVal(v)
 	case "df.scan":
 		rd := d.f.NewReader()
+		if len(a) > 0 && a[0] == "tol" {
+			// the reader of the active file: a torn tail is the end of the log
+			rd.TolerateTornTail()
+		}
 		var parts []string
 		for {
 			r, p, err := rd.NextLogRecord()
